@@ -30,8 +30,18 @@ CLAIMED = {
             NOTE + "documented convention: the j=0 generic term is D*a_0.", "4/C13"),
     "C14": ("rollout and repeat are proved by the iteration rule for a symbolic trip count n >= 0 (all flag combinations, one- and two-leaf pytrees): entry i is ITER(i+1); stack_sub_trajectories returns every window; RepeatedStepper / ForcedStepper wiring, effective dt and shape checks are proved.",
             NOTE + "A5 for RepeatedStepper in physical space.", "4/C14"),
+    "C08": ("Decided at the level of the contracts of C01-C03 (a code change that breaks a symmetry breaks one of those obligations: symbols, masks, nonlinear terms, constructors) plus lemmas over the documented symbols of every stepper of the table: sigma_doc is invariant under every axis permutation for isotropic parameters, sigma_D restricted to one axis equals sigma_1 (zeroth generic coefficient excluded: documented D*a_0 convention), wavenumber layout of full and halved axes agree below Nyquist.",
+            NOTE + "translation equivariance rests on the shift theorem (A5) for Fourier multipliers / pointwise products; covariance of the documented continuous nonlinear operators under axis/channel permutation is textbook and assumed.", "4/C08"),
+    "C09": ("From the C02/C03 contracts: sigma_doc(0)=0 for every conservation-form stepper; the conservative convection, mean-removed gradient-norm and Cahn-Hilliard terms vanish at the mean mode for EVERY state (using rfftn[0]=sum); every ETDRK order then leaves the mean coefficient unchanged; constant equilibria (N(u) = -lambda u) are fixed points of orders 1-4 with the closed-form coefficients.",
+            NOTE + "A7 (coefficients = closed forms); for non-conservative convection forms, 2D vorticity and 3D rotational convection the vanishing mean of the convective term and the energy/enstrophy neutrality are integration by parts over a symbolic-size grid (A5) -- assumed, not discharged.", "4/C09"),
+    "C15": ("FourierInterpolator (constructor, __call__) equals the documented reconstruction-scaled Fourier sum; map_between_resolutions is proved for ALL N_old, N_new >= 2 (all parity combinations, D in {1,2,3}, both oddball flags): every stored new mode in the common band receives the old coefficient of the same wavenumber times (N_new/N_old)^D, all others zero; lemma: the mean of any state is preserved.",
+            NOTE + "A5 (band-limited exactness follows from the per-mode statement).", "4/C15"),
+    "C16": ("spatial_aggregator / spatial_norm / the nine spatial metrics, fourier_aggregator / fourier_norm / six Fourier metrics, six H1 metrics and correlation are proved equal to the documented formulas (floor, band masks, derivative factor, Parseval weights 1/recon, per-channel sums) for symbolic C, N, L; lemmas: L^D scaling, homogeneity, zero, symmetry, band partition, N^D/recon = Hermitian multiplicity.",
+            NOTE + "reference norms assumed non-zero; Parseval (A5) and Cauchy-Schwarz (A6) assumed.", "4/C16"),
     "C17": ("get_spectrum is proved (both binnings, power/amplitude, D in {1,2,3}, symbolic C and N) to equal the documented masked sums with 1/recon and 1/(2 recon N^D) weights; lemma: half-open bins partition [0, N//2+1/2).",
             NOTE + "nanmean of an empty bin is NaN natively (unconstrained here); Parseval (A5) assumed.", "4/C17"),
+    "C18": ("validate_normalization_options, normalize_ic, WhiteNoise, RandomTruncatedFourierSeries, GaussianRandomField, DiffusedNoise, the clamping / scaling / multi-channel wrappers, Discontinuity and SineWaves1d are proved equal to their documented construction (shape (1,N..N), cutoff mask, mean coefficient offset*N^D, power-law shaping with untouched mean, affine clamping, normalisation order), as deterministic terms in the abstract draws of the key; lemma: zero mean after mean removal, clamping end points.",
+            NOTE + "jax.random draws are abstract functions of the key; MAX/MIN aggregate facts (A6) assumed; finiteness is floating point (not expressible).", "4/C18"),
     "C20": ("raises-contracts: __call__ of BaseStepper / RepeatedStepper / Poisson rejects exactly the mis-shaped states (symbolic wrong channel count, wrong axis length, rank +-1); dimension guards of the NS classes and nonlinear terms, parity guards of the operators, option guards (scaling mode, scale_list length, ifft in 1D, order not in 0..4).",
             NOTE + "pure shape / integer reasoning.", "4/C20"),
 }
